@@ -104,14 +104,14 @@ def explore(pid, cases, rep, nontrivial, extra_checks=(), keep=None, use_corpus=
                         stats["side_fail_" + nm] += 1
             else:
                 stats["side_not_evaluated"] += 1
-    # C09: the hypotheses of the universal tree theorems (C09_model_tree, C09_hw_tree_acyclic_src), evaluated per
+    # C09: the hypotheses of the universal tree theorems (C09_model_tree_nx, C09_model_tree_src_nx), evaluated per
     # accepted description: where all hold, acyclicity is a THEOREM about the model's netlist (the checker still runs)
     tree_applies = set()
     if pid in TREE_PROPS:
         acc = [i for i, m in enumerate(mods) if isinstance(m, list) and m and m[0] == "ok"]
         trees = common.run_model([modelio.request(cases[i][0], cmd="tree") for i in acc]) if acc else []
         names = ["tree_certificate", "id_or_src_routing", "transit_id_or_first_hops_src", "names_sep_req", "names_sep_rsp", "single_attach", "links_typed",
-                 "degrees_fit", "attached_req", "attached_rsp"]
+                 "degrees_fit", "attached_req", "attached_rsp", "enum_names_distinct_src"]
         for i, sd in zip(acc, trees):
             if isinstance(sd, list) and sd and sd[0] == "ok":
                 flags = [b is True for b in sd[1:]]
